@@ -92,7 +92,7 @@ def run(tier, seed, rep):
                        ] + ([variant("EmptyOnly", ser=[""])] if ci == 0 else [])      # an empty explicit name is a name (only in the first chunk: the last one holds an identifier whose styled form is empty, and an empty spelling switches off length- and first-byte shortcuts that the chunk of non-ASCII initials is there to exercise)
                 # a prefix is written in front of the name as given: the style renames the identifier, never the prefix
                 cands.append(enum(did, vs, style=st, cis=bool(did % 2), aci=bool((did // 2) % 2),
-                                  prefix=[None, "Pre.Fix/", None, "onX "][did % 4]))
+                                  prefix=[None, "Pre.Fix/", None, "onX "][did % 4] if ci == 0 else None))   # (only the first chunk: the round trip through EnumString is claimed for enums without a prefix)
                 did += 1
         facts = pipe.domain_pass(cands, PROP)
         defs = [E for E in cands if facts[E["id"]]["wf"] and facts[E["id"]]["no"] and facts[E["id"]]["wfn"]]
